@@ -29,6 +29,8 @@ def scenarios(tier):
         s.append(("slow_task", n, m, B, 120))
     for n, m in ((1, 1), (2, 1), (2, 2), (3, 1)):
         s.append(("two_submitters", n, m, B, 120))
+    for n, m in ((1, 2), (1, 3), (2, 3)):
+        s.append(("at_most_n", n, m, B, 120))
     for n, m in ((1, 1), (1, 2), (1, 3), (2, 1)):
         s.append(("exactly_once", n, m, None, 120))
     if tier == "thorough":
@@ -41,6 +43,8 @@ def scenarios(tier):
             s.append(("slow_task", n, m, 3, 900))
         for n, m in ((2, 1), (2, 2)):
             s.append(("two_submitters", n, m, 3, 900))
+        for n, m in ((1, 2), (1, 3), (1, 4), (2, 3), (2, 4), (3, 4)):
+            s.append(("at_most_n", n, m, 3, 900))
         for m in (0, 1, 2, 3, 4):
             s.append(("exactly_once", 4, m, 2, 900))
         s.append(("rendezvous", 4, 0, 2, 900))
@@ -64,14 +68,16 @@ def run_one(drv, sc):
     for line in err.splitlines():
         if line.startswith("RESULT "):
             res = json.loads(line[7:])
-    interesting = [l for l in err.splitlines() if "panicked" in l or "deadlock" in l.lower() or "assert" in l or "executed" in l]
+    interesting = [l for l in err.splitlines() if "panicked" in l or "deadlock" in l.lower() or "assert" in l or "executed" in l or "running at once" in l]
     return dict(sc=sc, rc=rc, result=res, tail="\n".join(interesting[-6:])[:1500], wall=time.time() - t)
 
 
 def sig_of(r):
     name, n, m, bound, _ = r["sc"]
     tail = r["tail"].lower()
-    if "deadlock" in tail:
+    if "more tasks running at once" in tail:
+        kind = "more-tasks-at-once-than-workers"
+    elif "deadlock" in tail:
         kind = "deadlock"
     elif "executed twice" in tail or "exactly once" in tail:
         kind = "task-not-executed-exactly-once"
